@@ -294,3 +294,8 @@ def size_cases(tier):
                 calls.append(chain(func, kind, n, j % 2 == 0, j % 3 != 0, [1.0, 0.0] if j % 2 else [2.0]))
                 j += 1
             yield {"calls": calls}
+            # the same sizes shrinking: whatever a call keeps for the next one (scratch buffers sized by an earlier,
+            # larger model) is exercised by a smaller model afterwards
+            yield {"calls": list(reversed(calls))}
+        zig = [1025, 2, 129, 5, 128, 65, 127, 33, 257, 1, 64, 3]
+        yield {"calls": [chain(func, kind, n, i % 2 == 0, i % 3 != 0, [1.0, 0.0] if i % 2 else [2.0]) for i, n in enumerate(zig)]}
